@@ -5,6 +5,8 @@
 import BufrModel.Lang.MdQuery
 import BufrModel.Gen.PyMdquery
 import BufrModel.Lemmas.MdQuerySrc
+import BufrModel.Gen.PyDecoder
+import BufrModel.Lemmas.SectionsSrc
 namespace Bufr.MdQuery
 open PyGen.mdquery
 
@@ -247,3 +249,21 @@ example : MetadataQuerent.query {} (messageToPy (fun _ => ⟨7⟩)
       [{ index := 1, params := [("edition", .int 4)], nbits := 8 }]) "%1.edition".toList = .ok (some ⟨7⟩) := by decide
 
 end Bufr.MdQuery
+
+namespace Bufr
+open PyGen.decoder PyGen.decoder.process_section_finish
+
+/-- C17 (metadata-only decoding = full decoding on sections 0-3): the end of `Decoder.process_section` translated from
+    the source takes neither `info_only` nor `ignore_value_expectation` — the options only transform the layout
+    (`DecOpts.transform`) — and for the transformed layout of every option combination it is the model's
+    `finishSection` (instance of `C04_src_finish_section_eq`) -/
+theorem C17_src_finish_section_any_options {α : Type} (env : Env) (errOf : Py.Exc → Err) (bits : Py.Obj → Bits)
+    (pos : Py.Obj → Nat) (hlib : errOf (.raised "PyBufrKitError") = .lib) (hr : ReaderSpec env errOf bits pos)
+    (o : DecOpts) (br : Py.Obj) (sec : Section) (s0 : SectionLayout) (st : DecSt α) (start : Nat)
+    (hs : SectionSpec env sec (o.transform s0) st.acc start) (hpos : pos br = start + st.used) :
+    FinishOk env errOf bits pos (o.transform s0) st start (finishSection (o.transform s0) st (bits br))
+      (process_section_finish env br sec) :=
+  finish_section_eq env errOf bits pos hlib hr br sec (o.transform s0) st start hs hpos
+
+end Bufr
+
